@@ -590,6 +590,7 @@ pub fn one_run(ctx: &Ctx, out: &mut Outcome, run_seed: u64) {
                     ("foreign_protocol", None, Some(fp), Some(protocol), None),
                     ("foreign_protocol", None, None, Some(fp), None),
                     ("wrong_host", None, None, None, Some(other_host)),
+                    ("wrong_host", None, None, None, Some(super::netcode_util::near_hosts(&mut r, &[w.saddr]))),
                 ];
                 for (class, k, aadp, pubp, hosts) in specs {
                     let id = w.fresh_id();
